@@ -124,6 +124,8 @@ class RMAX(Learns):
         self.s_a_counts = np.zeros((self.n_states, self.n_actions))  # used to count the number of (s, a) transitions seen
         
         self.q_matrix = np.ones((self.n_states, self.n_actions)) * self.rmax * 1/(1-mdp.discount_rate)
+        if hasattr(self, '_cached__self_transition_mat'):
+            del self._cached__self_transition_mat #shape depends on the MDP being trained on
 
     def _act(self, state, rng):
         """advance one step during training by picking an action"""
